@@ -2,6 +2,7 @@ package formatter
 
 import (
 	"strings"
+	"unicode"
 )
 
 // CanonicalizeSource applies the canonical GlyphLang formatting rules to source
@@ -22,6 +23,11 @@ func CanonicalizeSource(source string) string {
 	// Only CRLF is a line ending. A lone carriage return is a blank to the lexer
 	// (also inside string literals and comments), so it must not become a line break.
 
+	// Rule 4 removes leading blank lines anyway; removing them here together with
+	// any further BOM keeps a second BOM, or a BOM behind leading blanks, from
+	// ending up at the start of the output (formatting that output again would
+	// strip it and give a different result).
+	source = strings.TrimLeftFunc(source, func(r rune) bool { return r == '\ufeff' || unicode.IsSpace(r) })
 	lines := strings.Split(source, "\n")
 	var out []string
 	depth := 0
